@@ -195,11 +195,28 @@ func (e *eng) fresh(maxN int) {
 		r.Must("NewDense", budget, func() { d = graph.NewDense(n, nil) })
 		r.Must("NewSparse", budget, func() { s = graph.NewSparse(n, nil) })
 	} else {
-		edges := make([]byte, n*(n-1)/2)
+		// the caller's slice may have spare capacity holding garbage, and any non-zero byte
+		// marks an edge
+		ne := n * (n - 1) / 2
+		spare := []int{0, 0, 1, n, 3 * n}[t.Draw(5)]
+		backing := make([]byte, ne+spare)
+		for i := range backing {
+			backing[i] = byte(1 + i%3)
+		}
+		edges := backing[:ne]
+		nonUnit := t.Chance(1, 8)
+		if spare > 0 {
+			r.Probe("NewDense-from-slice-with-garbage-spare-capacity")
+		}
 		for j := 0; j < n; j++ {
 			for i := 0; i < j; i++ {
+				edges[j*(j-1)/2+i] = 0
 				if m.isEdge(i, j) {
 					edges[j*(j-1)/2+i] = 1
+					if nonUnit {
+						edges[j*(j-1)/2+i] = []byte{1, 2, 255, 7}[t.Draw(4)]
+						r.Probe("NewDense-with-non-unit-edge-bytes")
+					}
 				}
 			}
 		}
